@@ -86,10 +86,32 @@ func (d *Data) MergeLabels(v dvid.VersionID, op labels.MergeOp, info dvid.ModInf
 		MergeOp: op,
 	}
 
+	// The merge is a read-modify-write of the target's index and the merged bodies' indices.
+	// Hold the index shard locks of all of them (in ascending order, each shard once) from the
+	// first read to the last write so a concurrent merge, cleave or block change on any of these
+	// bodies is neither lost nor based on a stale index.
+	shardSet := map[uint64]struct{}{op.Target % numIndexShards: {}}
+	for label := range op.Merged {
+		shardSet[label%numIndexShards] = struct{}{}
+	}
+	shards := make([]uint64, 0, len(shardSet))
+	for shard := range shardSet {
+		shards = append(shards, shard)
+	}
+	sort.Slice(shards, func(i, j int) bool { return shards[i] < shards[j] })
+	for _, shard := range shards {
+		indexMu[shard].Lock()
+	}
+	defer func() {
+		for _, shard := range shards {
+			indexMu[shard].Unlock()
+		}
+	}()
+
 	// Return error if any of the merged bodies don't exist or are empty.
 	mergedIdxs := make(map[uint64]*labels.Index, len(op.Merged))
 	for label := range op.Merged {
-		if mergedIdxs[label], err = GetLabelIndex(d, v, label, false); err != nil {
+		if mergedIdxs[label], err = getCachedLabelIndex(d, v, label); err != nil {
 			return 0, fmt.Errorf("error getting label index for merge label %d: %v", label, err)
 		} else if mergedIdxs[label] == nil {
 			return 0, fmt.Errorf("can't merge non-existent label %d", label)
@@ -100,7 +122,7 @@ func (d *Data) MergeLabels(v dvid.VersionID, op labels.MergeOp, info dvid.ModInf
 
 	// Get all the affected blocks in the merge.
 	var targetIdx, mergeIdx *labels.Index
-	if targetIdx, err = GetLabelIndex(d, v, op.Target, false); err != nil {
+	if targetIdx, err = getCachedLabelIndex(d, v, op.Target); err != nil {
 		err = fmt.Errorf("error accessing index of merge target label %d: %v", op.Target, err)
 		return
 	}
@@ -148,11 +170,12 @@ func (d *Data) MergeLabels(v dvid.VersionID, op labels.MergeOp, info dvid.ModInf
 		return
 	}
 	dvid.Infof("putting targetIdx with user %s\n", targetIdx.LastModUser)
-	if err = PutLabelIndex(d, v, op.Target, targetIdx); err != nil {
+	targetIdx.Label = op.Target
+	if err = putCachedLabelIndex(d, v, targetIdx); err != nil {
 		return
 	}
 	for merged := range delta.Merged {
-		DeleteLabelIndex(d, v, merged)
+		deleteCachedLabelIndex(d, v, merged)
 	}
 	if err = labels.LogMerge(d, v, op); err != nil {
 		return
